@@ -34,14 +34,15 @@ Definition gsample : list gty :=
    GRec [(FName 0, GRec [(FName 1, GAtom AStr)])]].
 
 (* 0: the implementation's read-back equals the model's meet;
-   1: it differs, but it reports a clash exactly when the model does and has the same instances
-      among gsample and the witnesses (the correspondence is broken, no failing input here);
+   0 also: both report a clash (the position of BadType inside the term is not compared);
+   1: it differs, clash free on both sides, with the same instances among gsample and the witnesses
+      (the correspondence is broken, no failing input here);
    2: it differs in clash status or in instances: a failing input for the property. *)
 Definition judge1 (a b r : ty) : nat :=
   let m := meet a b in
   if teqb m r then 0
   else if negb (Bool.eqb (has_bad m) (has_bad r)) then 2
-  else if has_bad m then 1
+  else if has_bad m then 0      (* both report a clash; where inside the term the BadType sits is not part of the statement *)
   else if forallb (fun g => Bool.eqb (inst r g) (inst a g && inst b g))
             (wit m :: wit r :: wit a :: wit b :: gsample) then 1 else 2.
 
